@@ -29,9 +29,9 @@ def budget_s(tier):
 LEVELS_QUICK = [
     # (n, b, kinds, palettes, labelsets, full_ids)
     (2, 1, cm.KINDS7, ("real", "cplx", "eq", "wide", "small"), ("plain", "odd"), True),
-    (2, 2, cm.KINDS7, ("real", "cplx", "eq", "wide", "small"), ("plain", "odd"), True),
+    (2, 2, cm.KINDS7, ("real", "cplx", "eq", "wide", "small"), ("plain", "odd", "ids"), True),
     (2, 3, cm.KINDS7, ("real", "cplx"), ("plain", "odd"), False),
-    (3, 2, cm.KINDS7, ("real", "cplx", "eq", "wide", "small"), ("plain", "odd"), True),
+    (3, 2, cm.KINDS7, ("real", "cplx", "eq", "wide", "small"), ("plain", "odd", "ids"), True),
     (3, 3, cm.KINDS7, ("real", "cplx"), ("plain", "odd"), False),
     (3, 3, cm.KINDS4, ("eq", "wide"), ("odd",), False),
     (3, 4, cm.KINDS4, ("real",), ("plain", "odd"), False),
@@ -40,9 +40,9 @@ LEVELS_QUICK = [
 ]
 LEVELS_THOROUGH = [
     (2, 1, cm.KINDS7, ("real", "cplx", "dec", "eq", "wide", "small"), ("plain", "odd"), True),
-    (2, 2, cm.KINDS7, ("real", "cplx", "dec", "eq", "wide", "small"), ("plain", "odd"), True),
-    (2, 3, cm.KINDS7, ("real", "cplx", "dec", "small"), ("plain", "odd"), True),
-    (3, 2, cm.KINDS7, ("real", "cplx", "dec", "eq", "wide", "small"), ("plain", "odd"), True),
+    (2, 2, cm.KINDS7, ("real", "cplx", "dec", "eq", "wide", "small"), ("plain", "odd", "ids"), True),
+    (2, 3, cm.KINDS7, ("real", "cplx", "dec", "small"), ("plain", "odd", "ids"), True),
+    (3, 2, cm.KINDS7, ("real", "cplx", "dec", "eq", "wide", "small"), ("plain", "odd", "ids"), True),
     (3, 3, cm.KINDS7, ("real", "cplx", "dec", "eq", "wide"), ("plain", "odd"), True),
     (3, 4, cm.KINDS7, ("real", "cplx"), ("plain", "odd"), False),
     (4, 3, cm.KINDS7, ("real", "cplx"), ("plain", "odd"), False),
@@ -131,6 +131,9 @@ def run_families(desc, res):
 
 
 def labels_for(name, n):
+    if name == "ids":
+        # node labels that are also branch ids of the same network (separate name spaces), in an order that differs from the ids' order
+        return tuple(reversed(sp.IDS_ASC[:max(n, 2)]))[:n]
     return sp.LABELS_PLAIN[:n] if name == "plain" else sp.LABELS_ODD[:n]
 
 
